@@ -1,14 +1,14 @@
 #!/bin/bash
 # ingest_seeded.sh <Cxx>: re-verify the seeded changes an agent left in /tmp/wt-<Cxx>/seeded_out, store the confirmed
 # ones under /verif/seeded/<Cxx>/, remove the scratch worktree, and run the property's check against each.
-pid="$1"; wt=/tmp/wt-$pid
+pid="$1"; wtp="${2:-wt}"; pre="${3:-}"; wt=/tmp/$wtp-$pid
 [ -d "$wt/seeded_out" ] || { echo "no seeded_out in $wt"; exit 1; }
 for m in $wt/seeded_out/m*; do
   [ -f "$m/patch.diff" ] || continue
   into=$(python3 -c "import json; print(json.load(open('$m/meta.json')).get('demo_append_to','src/lib.rs'))")
   echo "== $pid $(basename $m) (demo -> $into)"
   if /verif/tools/verify_seeded.sh "$wt" "$m" "$into" 2>&1 | tail -4 | grep -q CONFIRMED; then
-    dst=/verif/seeded/$pid/$(basename $m); mkdir -p $dst
+    dst=/verif/seeded/$pid/$pre$(basename $m); mkdir -p $dst; new="$new $dst"
     cp $m/patch.diff $m/demo.rs $m/meta.json $dst/
     python3 - "$dst/meta.json" <<'PY'
 import json, sys
@@ -22,4 +22,4 @@ PY
   fi
 done
 git -C /repo worktree remove --force $wt; git -C /repo worktree prune
-for d in /verif/seeded/$pid/m*; do echo "--- check $pid vs $(basename $d)"; /verif/tools/run_seeded.sh $pid $d | cut -c1-260; done
+for d in $new; do echo "--- check $pid vs $(basename $d)"; /verif/tools/run_seeded.sh $pid $d | cut -c1-260; done
